@@ -369,7 +369,14 @@ def fam_panic_help(rng):
         ops = [{"op": "wait", "t": 1}]
         for i in range(rng.randrange(1, 3)):
             g = t * R + i
-            ops += [{"op": "load", "c": 0, "g": g}, {"op": "deref_g", "g": g}, {"op": "drop_g", "g": g}]
+            x = rng.random()
+            if x < 0.5:
+                ops += [{"op": "load", "c": 0, "g": g}, {"op": "deref_g", "g": g}, {"op": "drop_g", "g": g}]
+            elif x < 0.75:
+                # the internal loads of rcu / compare_and_swap take the same path (the value being installed is in flight)
+                ops += [{"op": "rcu", "c": 0, "h": g}, {"op": "drop_h", "h": g}]
+            else:
+                ops += [{"op": "cas", "c": 0, "cur": "null", "v": new(False), "g": g}, {"op": "drop_g", "g": g}]
         th.append(ops)
     for t in range(2 + nr, 3 + nr + rng.choice([0, 1])):
         th.append([{"op": "wait", "t": 1}] + [{"op": "store", "c": 0, "v": new(rng.random() < 0.5)} for _ in range(rng.randrange(1, 3))])
@@ -582,8 +589,8 @@ def directed(start_id=0, seed=0, tier="quick"):
 def sandwich(tier="quick", start_id=0):
     """Systematic two-thread exploration: A runs k1 steps, B runs k2 steps, A completes, B completes (and the
     symmetric order): every schedule in which each thread is preempted at most once."""
-    def prog(a, b, strategy, reuse="lifo"):
-        return {"threads": [[{"op": "new", "c": 0, "v": new()}],
+    def prog(a, b, strategy, reuse="lifo", pd=False):
+        return {"threads": [[{"op": "new", "c": 0, "v": new(pd)}],
                             [{"op": "wait", "t": 0}] + a, [{"op": "wait", "t": 0}] + b],
                 "strategy": strategy, "reuse": reuse}
     ld = [{"op": "load", "c": 0, "g": 16}, {"op": "deref_g", "g": 16}, {"op": "drop_g", "g": 16}]
@@ -717,6 +724,32 @@ def sandwich(tier="quick", start_id=0):
                     for k2 in range(10, 50, 2):
                         jobs.append({"fam": "sandwich3:3t:" + name, "prog": p,
                                      "sched": {"kind": "segs", "segs": [[1, k1], [2, k2], [3, 9999], [2, 9999], [1, 9999]]}})
+    # a full cycle of the generation counter while a writer is stopped inside `help` (C13: the node must have been
+    # given up at the wrap, otherwise the writer's stale exchange fits the same generation a cycle later): the reader's
+    # first fallback load (generation g) is seen by the writer, which is stopped k steps into its walk; the reader
+    # completes, its counter is preset so that it wraps on the next load, and it is stopped inside the load after that
+    # (generation g again, other container); the writer resumes
+    for back in (1, 2):
+        rd = [{"op": "wait", "t": 0}, {"op": "load", "c": 0, "g": 16}, {"op": "drop_g", "g": 16}, {"op": "set_gen", "back": back}]
+        for i in range(back + 1):
+            rd += [{"op": "load", "c": 1, "g": 17 + i}, {"op": "deref_g", "g": 17 + i}, {"op": "drop_g", "g": 17 + i}]
+        pw = {"threads": [[{"op": "new", "c": 0, "v": new()}, {"op": "new", "c": 1, "v": new()}], rd,
+                          [{"op": "wait", "t": 0}] + warm2 + [{"op": "store", "c": 0, "v": new()}]],
+              "strategy": "nofast", "reuse": "never"}
+        for k in range(0, 14):
+            jobs.append({"fam": "until:wrap-cycle", "prog": pw, "sched": {"kind": "until", "segs": [
+                [1, "st.0.*.load", 1], [2, "ctrl.0.*.load", 1], [2, "#%d" % k, 1], [1, "st.1.*.load", back + 1], [2, "", 1], [1, "", 1]]}})
+    # panicking destructors at the places where the LIBRARY drops a value on behalf of a reading operation (C18): the
+    # stored value's destructor panics and the container is its only owner; a reader / a rejected compare_and_swap is
+    # stopped at every point, a store completes (helping the reader, paying its debt), the reader resumes and releases
+    # the last reference inside the library
+    casn = [{"op": "cas", "c": 0, "cur": "null", "v": new(), "g": 35}, {"op": "deref_g", "g": 35}, {"op": "drop_g", "g": 35}]
+    lfd = [{"op": "load_full", "c": 0, "h": 16}, {"op": "drop_h", "h": 16}]
+    for name, a, strat, ka in (("casnull/st/pd/nofast", casn, "nofast", 40), ("casnull/st/pd", casn, "default", 36),
+                               ("lf/st/pd/nofast", lfd, "nofast", 30), ("rcu/st/pd/nofast", rcu, "nofast", 50)):
+        p = prog(warm + a, warm2 + st, strat, reuse="never", pd=True)
+        for k1 in range(8, ka):
+            jobs.append({"fam": "sandwich:pd:" + name, "prog": p, "sched": {"kind": "segs", "segs": [[1, k1], [2, 9999], [1, 9999]]}})
     # generation wrap inside a writer's NESTED load (the writer helps a reader that is mid-fallback): W claims its node
     # first and presets its counter, R is stopped at every step of its load, W stores
     for back in (1, 2):
